@@ -108,7 +108,12 @@ def build_set_unit():
 
 def run_verus_part(builder=None):
     t0 = time.time()
-    path, log, expand_s = (builder or build_verus_unit)()
+    try:
+        path, log, expand_s = (builder or build_verus_unit)()
+    except LostAnchor as ex:
+        from .splice import Log
+        return {'path': None, 'log': Log(), 'expand_s': 0.0, 'wall_s': time.time() - t0, 'verus_s': 0.0, 'functions': [], 'verified': 0, 'errors': 0,
+                'failures': [], 'inconclusive': 'lost anchor while splicing the unit: %s' % ex, 'canary_ok': False}
     res = run_verus(path, timeout=900)
     text = open(path).read()
     loc = Locator(text, path)
@@ -222,7 +227,11 @@ def companions_all_passed(vf, unit):
     cands = companions(vf)
     res = unit['kani']['results']
     ran = [h for h in cands if h in res and res[h]['status'] is not None]
-    return bool(ran) and all(res[h]['status'] == 'SUCCESSFUL' for h in ran)
+    nres = unit['native']['results']
+    nran = [h for h in cands if h in nres]
+    if not ran and not nran:
+        return False
+    return all(res[h]['status'] == 'SUCCESSFUL' for h in ran) and all(not nres[h]['failures'] for h in nran)
 
 
 def find_cex_for_verus_failure(vf, unit):
